@@ -1,4 +1,5 @@
 import NanoVerif.Proofs.Palette
+import NanoVerif.Proofs.PaletteTop
 /-
 C15 — The palette honours explicit indices and resolves every colour.
 Model: `Model/Palette.lean` (`uniqSortCpal`, `fillSlots`).  The loop theorems
